@@ -1,7 +1,7 @@
 #!/bin/bash
 # usage: tools/runall.sh [quick|thorough] [seed]   -- runs every registered check, validates evidence
 tier="${1:-quick}"; seed="${2:-0}"
-cd /verif
+cd "$(dirname "$(readlink -f "$0")")/.."
 fail=0
 for c in $(python3 -c "import json;print(' '.join(x['property_id'] for x in json.load(open('MANIFEST.json'))['checks']))"); do
   rm -f evidence/$c.json
@@ -15,9 +15,9 @@ python3-vt - <<'PY'
 import json, jsonschema, glob
 sch=json.load(open('/root/.vp/EVIDENCE.schema.json'))
 bad=0
-for f in sorted(glob.glob('/verif/evidence/C*.json')):
+for f in sorted(glob.glob('evidence/C*.json')):
     try: jsonschema.validate(json.load(open(f)), sch)
     except Exception as e: bad+=1; print('INVALID', f, str(e)[:200])
-print('evidence files valid' if not bad else f'{bad} invalid evidence files', len(glob.glob('/verif/evidence/C*.json')))
+print('evidence files valid' if not bad else f'{bad} invalid evidence files', len(glob.glob('evidence/C*.json')))
 PY
 exit $fail
